@@ -598,15 +598,20 @@ def reset_after_selection(rng, kind, to, step, base_id=700):
             nums = sorted(set(SPECIAL_NUMBERS + list(range(rng.randrange(step * 8), 16384, step * 8))))
             for num in nums:
                 for reg in (1, 0):
-                    out.append({"op": "new", "id": a, "k": kind, "to": to})
-                    x = [176 + ch, 101 if reg else 99, num // 128]
-                    y = [176 + ch, 100 if reg else 98, num % 128]
-                    for m in ([x, y] if rng.random() < 0.5 else [y, x]):
-                        out.append({"op": "feed", "id": a, "m": m})
-                    r = rng.random()
-                    if r < 0.3:
-                        out.append({"op": "feed", "id": a, "m": [176 + ch, 6, rval(rng)]})
-                    elif r < 0.5:
-                        out.append({"op": "feed", "id": a, "m": [176 + ch, 38, rval(rng)]})
-                    after(ch, 0)
+                    # special numbers: every kind of progress; swept numbers: one seeded kind
+                    variants = (0, 1, 2, 3) if num in SPECIAL_NUMBERS else (rng.randrange(4),)
+                    for var in variants:
+                        out.append({"op": "new", "id": a, "k": kind, "to": to})
+                        x = [176 + ch, 101 if reg else 99, num // 128]
+                        y = [176 + ch, 100 if reg else 98, num % 128]
+                        for m in ([x, y] if rng.random() < 0.5 else [y, x]):
+                            out.append({"op": "feed", "id": a, "m": m})
+                        if var == 1:
+                            out.append({"op": "feed", "id": a, "m": [176 + ch, 6, rval(rng)]})
+                        elif var == 2:
+                            out.append({"op": "feed", "id": a, "m": [176 + ch, 38, rval(rng)]})
+                        elif var == 3:
+                            out.append({"op": "feed", "id": a, "m": [176 + ch, 6, rval(rng)]})
+                            out.append({"op": "feed", "id": a, "m": [176 + ch, 38, rval(rng)]})
+                        after(ch, 0)
     return out
